@@ -119,6 +119,12 @@ func (c *P2Claims) SetCertificationReference(v string) error {
 }
 
 func (c *P2Claims) SetSoftwareComponents(scs []ISwComponent) error {
+	// unlike profile 1, this profile has no way of saying "no measurements":
+	// the claim is mandatory, so a nil list is not a value it can take
+	if scs == nil {
+		return fmt.Errorf("%w: nil software components", ErrWrongSyntax)
+	}
+
 	if c.SwComponents == nil {
 		c.SwComponents = &SwComponents[*SwComponent]{}
 	}
